@@ -21,7 +21,7 @@ Section Term.
     match t with
     | TFn f => get_fn P f <> None
     | TMeth o m => exists cd, class_of P o = Some cd /\ nth_error (cl_meths cd) m <> None
-    | TInit o => class_of P o <> None
+    | TInit o | TNew o => class_of P o <> None
     end.
 
   Definition fn_scripts (fd : fn) : list script :=
@@ -42,6 +42,10 @@ Section Term.
                             forall t, In t (script_calls body) -> rank t < rank (TMeth o m))
     /\ (forall o cd, class_of P o = Some cd ->
                      forall t, In t (script_calls (cl_init cd)) -> rank t < rank (TInit o))
+    (* nothing is suspended while __new__ and the invariants after it run: creating the instance must outrank
+       whatever they call (an invariant that creates an instance of its own class never ends in Python either) *)
+    /\ (forall o cd, class_of P o = Some cd -> forall sc, In sc (cl_invs cd ++ [cl_init cd]) ->
+                     forall t, In t (script_calls sc) -> rank t < rank (TNew o))
     /\ (forall t, rank t <= R).
 
   Definition all_keys : list key :=
@@ -211,7 +215,7 @@ Section Term.
   Hypothesis Hrk : ranked.
 
   Lemma rank_le t : rank t <= R.
-  Proof. destruct Hrk as (_ & _ & _ & H). apply H. Qed.
+  Proof. destruct Hrk as (_ & _ & _ & _ & H). apply H. Qed.
 
   (** a call made while one more key is suspended has a smaller measure, whatever its rank *)
   Lemma measure_push k s t t' : In k all_keys -> kmem k s = false -> measure (k :: s) t' < measure s t.
@@ -236,8 +240,8 @@ Section Term.
                           ok_at (run sc) s0) as Hscript.
     { intros s0 [acts v] Hc. apply ok_actions; [apply exec_preserves|].
       intros t' Ht'. destruct (Hc t' Ht') as [Hv' Hm']. apply IH; assumption. }
-    destruct Hwf as [Hwf_fn Hwf_cls]. destruct Hrk as (Hrk_fn & Hrk_meth & Hrk_init & _).
-    destruct t as [f | o m | o].
+    destruct Hwf as [Hwf_fn Hwf_cls]. destruct Hrk as (Hrk_fn & Hrk_meth & Hrk_init & Hrk_new & _).
+    destruct t as [f | o m | o | o].
     - (* function *)
       destruct (get_fn P f) as [fd|] eqn:Ef; [|cbn in Hv; congruence].
       unfold call_fn. intros tr out s' H. cbn [run_seq] in H. revert tr out s' H. fold (ok_at (A:=bool)).
@@ -317,6 +321,17 @@ Section Term.
         intros r. apply ok_pbind; [apply preserves_conj'; exact Hp | | intros _; apply ok_ret].
         apply ok_conj; [exact Hp|]. intros sc Hs. apply Hscript. apply Hcontract.
         unfold cls_scripts. rewrite !in_app_iff. auto.
+    - (* creation through __new__ *)
+      cbn in Hv. destruct (class_of P o) as [cd|] eqn:Ec; [|congruence].
+      assert (forall sc, In sc (cl_invs cd ++ [cl_init cd]) ->
+                         forall t', In t' (script_calls sc) -> valid_target t' /\ measure s t' < fuel) as Hcalls.
+      { intros sc Hsc t' Ht'. split.
+        - apply (Hwf_cls o cd Ec sc); [|exact Ht']. unfold cls_scripts. rewrite !in_app_iff in *. cbn in *. tauto.
+        - pose proof (Hrk_new o cd Ec sc Hsc t' Ht'). unfold measure in *. lia. }
+      unfold call_new. apply ok_emit. apply ok_pbind; [apply Hp | |].
+      { apply Hscript. apply Hcalls. rewrite in_app_iff. cbn. auto. }
+      intros r. apply ok_pbind; [apply preserves_conj'; exact Hp | | intros _; apply ok_ret].
+      apply ok_conj; [exact Hp|]. intros sc Hs. apply Hscript. apply Hcalls. rewrite in_app_iff. auto.
   Qed.
 
   (** the bound in closed form: fuel (= nesting depth) [(#keys + 1) * (R + 1)] always suffices *)
